@@ -182,6 +182,8 @@ def havoc(fv, st, names, fields):
             # a global the loop may modify but that was not touched before the loop: it still has to be havocked
             gty = fv.E.parse_ty(fv.E.sc.globals[n[len('glob:'):]])
             st.env[n] = fv.fresh_typed(st, n.replace(':', '_'), gty)
+    if '*' in fields:
+        fields = (set(fields) - {'*'}) | set(fv.E.field_types)
     for f in sorted(fields):
         from .symexec import Contract_stub
         allowed = fv.modifies_keys(Contract_stub(['.' + f])) if '.' in f else None
